@@ -302,5 +302,47 @@ func ParamScenarios() []History {
 	)
 	add("no-slash-raised-minimum-tax-changes", smallParams(), nil, ops...)
 
+	// no global minimum deposit (the parameter is the empty coin set): the price alone bounds the deposit,
+	// at bind, re-pricing, enabling and when a slash takes the deposit below it
+	free := &MParams{MaxTimeout: 6, Multiple: 10, MinDeposit: 0, Tax: 100, Slash: 500, RefundDelay: 6}
+	ops = []Ev{
+		{Name: "Define", Signer: "o1", Svc: "s1"},
+		{Name: "Bind", Signer: "o1", Svc: "s1", Prov: "p1", Deposit: 50, DShape: "ok", Pr: pr(5), Qos: 1},  // exactly price x multiple
+		{Name: "Bind", Signer: "o1", Svc: "s1", Prov: "p2", Deposit: 29, DShape: "ok", Pr: pr(3), Qos: 1},  // one short
+		{Name: "Bind", Signer: "o1", Svc: "s1", Prov: "p2", Deposit: 30, DShape: "ok", Pr: pr(3), Qos: 1},
+		{Name: "Bind", Signer: "o2", Svc: "s1", Prov: "p3", Deposit: 1, DShape: "ok", Pr: pr(0), Qos: 1},   // price 0: nothing is required
+		{Name: "UpdateBinding", Signer: "o1", Svc: "s1", Prov: "p1", HasPr: true, Pr: pr(6)},              // needs 60, holds 50
+		{Name: "UpdateBinding", Signer: "o1", Svc: "s1", Prov: "p1", HasPr: true, Pr: pr(6), Deposit: 9, DShape: "ok"},
+		{Name: "UpdateBinding", Signer: "o1", Svc: "s1", Prov: "p1", HasPr: true, Pr: pr(6), Deposit: 10, DShape: "ok"},
+		{Name: "Disable", Signer: "o1", Svc: "s1", Prov: "p2"},
+		{Name: "UpdateBinding", Signer: "o1", Svc: "s1", Prov: "p2", HasPr: true, Pr: pr(4)}, // unavailable: not checked
+		{Name: "Enable", Signer: "o1", Svc: "s1", Prov: "p2", Deposit: 9, DShape: "ok"},      // needs 40, would hold 39
+		{Name: "Enable", Signer: "o1", Svc: "s1", Prov: "p2", Deposit: 10, DShape: "ok"},
+		{Name: "Call", Signer: "c1", Svc: "s1", Provs: []string{"p1", "p2", "p3"}, Cap: 10, Timeout: 2},
+		eb(1),
+		{Name: "Respond", Signer: "p3", Rid: rid(1, 1, 1, 2), Kind: "bad"}, // p3: price 0, half of 1 is 0: still available
+		eb(1), eb(1), // p1 and p2 time out: half their deposits, below the price-based minimum: disabled
+		{Name: "Obs"},
+		{Name: "PrepZeroHeight"},
+		{Name: "Genesis"},
+	}
+	add("no-global-minimum-deposit", free, nil, ops...)
+
+	// governance raises the minimum deposit over what the bindings hold, and the chain is exported: the
+	// export validates and a fresh chain takes it (available bindings and all), then goes on
+	ops = registry(map[string]int64{"p1": 5, "p2": 3})
+	ops = append(ops,
+		Ev{Name: "Call", Signer: "c1", Svc: "s1", Provs: []string{"p1", "p2"}, Cap: 10, Timeout: 2, Rep: true, Freq: 3, Total: 3},
+		eb(1),
+		with(func(p *MParams) { p.MinDeposit = 70; p.Multiple = 3 }),
+		Ev{Name: "Respond", Signer: "p1", Rid: rid(1, 1, 1, 0), Kind: "valid"},
+		Ev{Name: "PrepZeroHeight"},
+		Ev{Name: "Genesis"},
+		Ev{Name: "Restart"},
+		Ev{Name: "Start", Signer: "c1", ID: 1},
+		eb(1), eb(1), eb(1),
+	)
+	add("export-after-the-minimum-was-raised", smallParams(), nil, ops...)
+
 	return hs
 }
